@@ -245,7 +245,7 @@ impl Prop for Multi {
         "C07"
     }
     fn rule(&self) -> String {
-        "Frameworks of <=9 (quick) / <=12 (thorough) arguments biased to 1-4 components, with a list of 1-3 arguments (repetitions allowed) chosen freely, as the endpoints of an attack, or one per component; every static solver type implementing an acceptance trait x every selectable encoder x credulous/skeptical, with and without certificate, each on a fresh solver object; status must equal the disjunctive reference answer and the certificate must contain at least one / no listed member. One case in 150 is a union of 3-30 small components (20-200 arguments) with a list of up to three of its arguments: the disjunctive answer is exact by composition. Non-trivial: the list has >=2 distinct arguments and either spans >=2 components or its disjunctive answer differs from a member's single answer; distinct = (graph, presentation kind, problem, encoder, list).".into()
+        "Frameworks of <=9 (quick) / <=12 (thorough) arguments biased to 1-4 components, with a list of 1-3 arguments (one list in nine: 4-6; repetitions allowed) chosen freely, as the endpoints of an attack, or one per component; every static solver type implementing an acceptance trait x every selectable encoder x credulous/skeptical, with and without certificate, each on a fresh solver object; status must equal the disjunctive reference answer and the certificate must contain at least one / no listed member. One case in 150 is a union of 3-30 small components (20-200 arguments) with a list of up to three of its arguments: the disjunctive answer is exact by composition. Non-trivial: the list has >=2 distinct arguments and either spans >=2 components or its disjunctive answer differs from a member's single answer; distinct = (graph, presentation kind, problem, encoder, list).".into()
     }
     fn assumptions(&self) -> Vec<String> {
         vec!["oracle.rs reference semantics".into(), "lists of 1-3 arguments as the property states".into()]
@@ -278,7 +278,8 @@ impl Multi {
             prop_oneof![3 => gen::graph_multi(nmax), 2 => gen::graph(nmax), 1 => skeptical_not_ideal(nmax)],
             gen::pres(nmax),
             prop_oneof![1 => Just(0u8), 1 => Just(1u8), 1 => Just(2u8), 2 => Just(3u8)],
-            vec(any::<u16>(), 1..=3),
+            // mostly the 1-3 members the property quantifies over; one list in nine has 4-6 (its statement is general)
+            prop_oneof![8 => vec(any::<u16>(), 1..=3), 1 => vec(any::<u16>(), 4..=6)],
             (any::<u64>(), 0u8..3),
         )
             .prop_filter("needs an argument", |(g, _, _, _, _)| g.n >= 1)
